@@ -18,7 +18,7 @@ RULE = (
     "inline style declarations must trigger exactly the bundled style rules. "
     "part X (context rules): a probe schema with a high-priority rule restricted by a context "
     "expression and an unrestricted fallback for the same tag; the node produced for every probe "
-    "element is compared with a reference context matcher over the open ancestors. part Z (rule zoo): the list schema extended with rules that use priority, getAttrs declining a match, contentElement, preserveWhitespace on ordinary blocks, ignore, skip, closeParent, consuming:false, style rules with getAttrs and clearMark, fed the same hostile HTML with the triggering elements spliced in - same oracle (returns within budget, valid document). part E (export): "
+    "element is compared with a reference context matcher over the open ancestors. part Z (rule zoo): the list schema extended with rules that use priority, getAttrs declining a match, contentElement, preserveWhitespace on ordinary blocks, ignore, skip, closeParent, consuming:false, style rules with getAttrs and clearMark, fed the same hostile HTML with the triggering elements spliced in - same oracle (returns within budget, valid document). Style rules restricted by a context (bare property and property=value form) are probed the same way on marked words. part E (export): "
     "valid generated documents serialise without error; the output re-parsed by lxml has the "
     "document's text and attribute values (injected < > & \" ' never create elements). part R (round "
     "trip): constructed whitespace-normal documents (single spaces between differently marked words, "
@@ -386,6 +386,76 @@ def gen_probe_html(rnd, chain, out, depth=0):
         else:
             parts.append("<p>t</p>")
     return "".join(parts)
+
+
+STYLE_CONTEXTS = ["paragraph/", "blockquote/paragraph/", "list_item/paragraph/", "blockquote//", "doc/paragraph/", "heading/|blockquote/paragraph/",
+                  "block/", "doc//list_item/paragraph/"]
+_SPROBE = {}
+
+
+def style_probe_schema(context):
+    """The list schema whose strong / em STYLE rules are restricted by a context expression:
+    one names the bare property (font-weight), the other property=value (font-style=italic)."""
+    from prosemirror.model import Schema
+    from prosemirror.test_builder import test_schema as S0
+
+    if context not in _SPROBE:
+        marks = dict(S0.spec["marks"])
+        marks["strong"] = {**marks["strong"], "parseDOM": [{"tag": "strong"}, {"style": "font-weight", "context": context}]}
+        marks["em"] = {**marks["em"], "parseDOM": [{"tag": "em"}, {"style": "font-style=italic", "context": context}]}
+        _SPROBE[context] = schemas.Sch("probe-style-context", Schema({"nodes": S0.spec["nodes"], "marks": marks}), "other")
+    return _SPROBE[context]
+
+
+def gen_style_probe_html(rnd, chain, out, depth=0):
+    parts = []
+    for _ in range(rnd.randint(1, 3)):
+        r = rnd.random()
+        if r < 0.45 or depth > 3:
+            tb = rnd.choice(["p", "p", "h2"])
+            words = []
+            for _w in range(rnd.randint(1, 3)):
+                kind = rnd.choice(["strong", "em", "none"])
+                out.append((list(chain) + ["paragraph" if tb == "p" else "heading"], kind))
+                style = {"strong": "font-weight: bold", "em": "font-style: italic", "none": "color: red"}[kind]
+                words.append('<span style="%s">w%dx</span>' % (style, len(out)))
+            parts.append("<%s>%s</%s>" % (tb, " ".join(words), tb))
+        elif r < 0.7:
+            parts.append("<blockquote>%s</blockquote>" % gen_style_probe_html(rnd, chain + ["blockquote"], out, depth + 1))
+        else:
+            lt = rnd.choice(["ul", "ol"])
+            items = "".join("<li>%s</li>" % ("<p>i</p>" + gen_style_probe_html(rnd, chain + ["bullet_list" if lt == "ul" else "ordered_list", "list_item"], out, depth + 1))
+                            for _k in range(rnd.randint(1, 2)))
+            parts.append("<%s>%s</%s>" % (lt, items, lt))
+    return "".join(parts)
+
+
+def check_style_context(ctx, rnd):
+    context = rnd.choice(STYLE_CONTEXTS)
+    sch = style_probe_schema(context)
+    expected = []
+    html = gen_style_probe_html(rnd, ["doc"], expected)
+    doc = run_import(ctx, sch, html, "style-context", {"context"})
+    if doc is None:
+        return
+    found = {}
+
+    def visit(n, pos, par, idx):
+        if n.is_text:
+            for m_ in re.finditer(r"w(\d+)x", n.text):
+                found[int(m_.group(1))] = sorted(x.type.name for x in n.marks)
+
+    doc.descendants(visit)
+    ctx.count("style_context_probes", len(expected))
+    ctx.ev()
+    for k, (chain, kind) in enumerate(expected, 1):
+        want = [kind] if kind != "none" and ref_context_match(sch, context, chain) else []
+        if found.get(k) != want:
+            ctx.violation("context-rule", "style rule restricted to context %r: word %d (open ancestors %r, style for %s) got marks %r, expected %r"
+                          % (context, k, chain, kind, found.get(k), want), {"html": html[:1500], "context": context},
+                          {"context": context, "style_rule": True, "expected_mark": bool(want)})
+            return
+    ctx.cover(["XS", context, any(ref_context_match(sch, context, c) for c, _k in expected)], nontrivial=True)
 
 
 def check_context(ctx, rnd):
@@ -756,6 +826,8 @@ def case(ctx, rnd, i):
     elif k == 3:
         for _ in range(4):
             check_context(ctx, rnd)
+        for _ in range(2):
+            check_style_context(ctx, rnd)
         check_styles(ctx, sch, rnd)
         zoo = zoo_schema()
         for _ in range(4):
